@@ -50,3 +50,20 @@ def replays(out):
     for m in re.finditer(r'<<"REPLAY", "((?:[^"\\]|\\.)*)">>', out):
         hs.append(json.loads(m.group(1).encode().decode("unicode_escape")))
     return hs
+
+
+def fs_cfg(path, procs, ops, maxstarts, crash, faults, invariants, properties=(), fair=False):
+    txt = "CONSTANTS\n  Procs = {%s}\n" % ", ".join("p%d" % (i + 1) for i in range(procs))
+    txt += '  Keys = {"k1", "k2"}\n  Datas = {"d1", "d2"}\n  OpSet <- %s\n' % ops
+    txt += "  MaxStarts = %d\n  AllowCrash = %s\n  MaxFaults = %d\n  NoFile = NoFile\n" % (
+        maxstarts, "TRUE" if crash else "FALSE", faults)
+    txt += "SPECIFICATION %s\n" % ("FairSpec" if fair else "Spec")
+    if invariants:
+        txt += "INVARIANTS " + " ".join(invariants) + "\n"
+    if properties:
+        txt += "PROPERTIES " + " ".join(properties) + "\n"
+    txt += "CHECK_DEADLOCK FALSE\n"
+    os.makedirs(os.path.dirname(path), exist_ok=True)
+    with open(path, "w") as f:
+        f.write(txt)
+    return path
